@@ -43,7 +43,7 @@ func c05Stress(ctx *Ctx) {
 		ctx.Inconclusive("race build unavailable: stress ran without the race detector")
 	}
 	rounds := ctx.N(3, 10)
-	modes := []string{"mixed", "aof-order", "snapshot-cut"}
+	modes := []string{"mixed", "aof-order", "snapshot-cut", "conn-admin", "expiry-resurrect"}
 	var wg sync.WaitGroup
 	sem := make(chan struct{}, 3)
 	for rd := 0; rd < rounds; rd++ {
@@ -202,6 +202,11 @@ func stressMain(args []string) int {
 		opts.EvictionInterval = 3 * time.Millisecond
 		opts.EvictionSample = 5
 	}
+	if mode == "expiry-resurrect" {
+		opts.Policy = "allkeys-lru"
+		opts.EvictionInterval = time.Millisecond
+		opts.EvictionSample = 20
+	}
 	in, err := NewInst(opts)
 	if err != nil {
 		fmt.Fprintln(os.Stderr, err)
@@ -215,6 +220,28 @@ func stressMain(args []string) int {
 	nClients, nOps := 8, 250
 	if tier == "thorough" {
 		nClients, nOps = 12, 600
+	}
+	if mode == "conn-admin" || mode == "expiry-resurrect" {
+		finish := func() int {
+			for c := range classes {
+				res.Classes = append(res.Classes, c)
+			}
+			writeJSON(out, res)
+			return 0
+		}
+		if mode == "conn-admin" {
+			stressConnAdmin(in, port, nOps*2, seed, res, violate, class)
+		} else {
+			stressExpiryResurrect(in, port, nClients, nOps*2, seed, res, violate, class)
+		}
+		done := make(chan struct{})
+		go func() { in.Close(); close(done) }()
+		select {
+		case <-done:
+		case <-time.After(20 * time.Second):
+			violate(Violation{Kind: "deadlock", Lane: "stress-" + mode, What: "the server could not be shut down within 20 s after the workload", Key: "c05|shutdown-hang|" + mode})
+		}
+		return finish()
 	}
 	var clients []*stressClient
 	for i := 0; i < nClients; i++ {
@@ -685,4 +712,126 @@ func collectRaceReports(ctx *Ctx, raceLog string, keyPrefix string, extra map[st
 		}
 	}
 	return reports
+}
+
+// stressConnAdmin: connections change their own state (SELECT, HELLO) while others swap databases and
+// others read and write: none of these commands is a read or a write command, so nothing but their own
+// locking orders them. Every command must be answered; a stuck server is reported through the client
+// watchdog (no reply within 20 s) and by the shutdown watchdog.
+func stressConnAdmin(in *Inst, port int, nOps int, seed int64, res *stressResult, violate func(Violation), class func(string)) {
+	roles := []string{"select", "select", "select", "select", "select", "select", "swapdb", "swapdb", "hello", "data", "data"}
+	var wg sync.WaitGroup
+	var ops atomic.Int64
+	var stuck atomic.Bool
+	for id, role := range roles {
+		wg.Add(1)
+		go func(id int, role string) {
+			defer wg.Done()
+			c, err := Dial(port)
+			if err != nil {
+				res.Inconcl = append(res.Inconcl, "dial failed")
+				return
+			}
+			defer c.Close()
+			r := rand.New(rand.NewSource(seed*977 + int64(id)))
+			for i := 0; i < nOps && !stuck.Load(); i++ {
+				var argv []string
+				switch role {
+				case "select":
+					argv = []string{"SELECT", strconv.Itoa(r.Intn(4))}
+				case "swapdb":
+					argv = []string{"SWAPDB", strconv.Itoa(r.Intn(3)), strconv.Itoa(r.Intn(3))}
+				case "hello":
+					argv = []string{"HELLO", []string{"2", "3"}[r.Intn(2)]}
+					if i%3 == 0 {
+						argv = []string{"PING"}
+					}
+				default:
+					k := fmt.Sprintf("ca%d", r.Intn(8))
+					argv = [][]string{{"SET", k, "v"}, {"GET", k}, {"INCR", "cac"}, {"RPUSH", "cal", "x"}, {"LPOP", "cal"}}[r.Intn(5)]
+				}
+				v, _, err := c.Do(argv...)
+				ops.Add(1)
+				if err != nil {
+					stuck.Store(true)
+					violate(Violation{Kind: "deadlock", Lane: "stress-conn-admin",
+						What: fmt.Sprintf("connection %d (%s loop) got no reply to %s within the 20 s client watchdog (%v) while other connections were running SELECT / SWAPDB / HELLO / data commands", id, role, Step{Argv: argv}.String(), err),
+						Case: map[string]interface{}{"argv": argv, "role": role}, Key: "c05|conn-admin|stuck"})
+					return
+				}
+				if v.IsError() && role != "hello" {
+					violate(Violation{Kind: "reply", Lane: "stress-conn-admin", What: fmt.Sprintf("connection %d: %s -> %s", id, Step{Argv: argv}.String(), trunc(v.String(), 100)),
+						Case: map[string]interface{}{"argv": argv}, Key: "c05|conn-admin|error|" + argv[0]})
+					return
+				}
+			}
+		}(id, role)
+	}
+	wg.Wait()
+	res.Ops = ops.Load()
+	class(fmt.Sprintf("conn-admin|completed=%v", !stuck.Load()))
+	res.Counters["conn_admin_ops"] = ops.Load()
+}
+
+// stressExpiryResurrect: every client, on its own keys, writes a key, gives it a deadline in the past (the
+// entry stays in the store until something collects it), and writes it again; the second write is
+// acknowledged and has no deadline, so it must still be there at the end, whatever the background expiry
+// sampler (1 ms period) was doing in between.
+func stressExpiryResurrect(in *Inst, port int, nClients, nOps int, seed int64, res *stressResult, violate func(Violation), class func(string)) {
+	var mu sync.Mutex
+	finals := map[string]string{}
+	var wg sync.WaitGroup
+	var ops atomic.Int64
+	for id := 0; id < nClients; id++ {
+		wg.Add(1)
+		go func(id int) {
+			defer wg.Done()
+			c := &stressClient{id: id, in: in}
+			if id%2 == 0 {
+				tc, err := Dial(port)
+				if err != nil {
+					return
+				}
+				defer tc.Close()
+				c.tcp = tc
+			}
+			for i := 0; i < nOps; i++ {
+				k := fmt.Sprintf("er%d:%d", id, i%40)
+				fresh := fmt.Sprintf("fresh-%d-%d", id, i)
+				c.do("SET", k, "old")
+				c.do("EXPIREAT", k, "1")
+				v, err := c.do("SET", k, fresh)
+				ops.Add(3)
+				if err != nil || v.IsError() {
+					violate(Violation{Kind: "reply", Lane: "stress-expiry-resurrect", What: fmt.Sprintf("SET %s %s -> %s %v", k, fresh, v.String(), err), Key: "c05|expiry-resurrect|set"})
+					return
+				}
+				mu.Lock()
+				finals[k] = fresh
+				mu.Unlock()
+			}
+		}(id)
+	}
+	wg.Wait()
+	time.Sleep(30 * time.Millisecond) // several sampler periods
+	res.Ops = ops.Load()
+	lost := 0
+	example := ""
+	for k, want := range finals {
+		v, _, _ := in.Do("GET", k)
+		t, _ := v.Text()
+		if v.IsNull() || t != want {
+			lost++
+			if example == "" {
+				example = fmt.Sprintf("GET %s -> %s, last acknowledged write was SET %s %s (after SET old; EXPIREAT 1)", k, trunc(v.String(), 40), k, want)
+			}
+		}
+	}
+	class(fmt.Sprintf("expiry-resurrect|keys=%d|lost=%v", len(finals), lost > 0))
+	res.Counters["expiry_resurrect_keys"] = int64(len(finals))
+	if lost > 0 {
+		violate(Violation{Kind: "lost_write", Lane: "stress-expiry-resurrect",
+			What: fmt.Sprintf("%d of %d keys lost their last acknowledged write: a value written over an expired-but-still-stored entry was removed afterwards (no sequential order of the write and a sampler pass removes it): %s", lost, len(finals), example),
+			Case: map[string]interface{}{"seed": seed}, Key: "c05|expiry-resurrect|lost"})
+	}
 }
